@@ -4,7 +4,7 @@
 //
 // case: {"fmt":"json"|"msgpack", "inp":[bytes], "lim":n, "f":<filter node>, "o":{comments,nan,inf,unicode},
 //        "code":..., "v":<byte-level node>, "read":n, "weird":bool}
-// usage: reader_replay <cases.ndjson> <seed>
+// usage: reader_replay <cases.ndjson> <seed> [--faults <events.ndjson> [maxk]]
 #include <cstdio>
 #include <fstream>
 #include <iostream>
@@ -160,7 +160,10 @@ static Outcome runKind(Fmt fmt, int kind, const std::string& bytes, bool useFilt
   DeserializationError err;
   bool zeroTerminated = kind == 0 || kind == 6 || kind == 7;
 #ifdef ARDUINO
-  zeroTerminated = zeroTerminated || kind == 10 || kind == 12;
+  zeroTerminated = zeroTerminated || kind == 12;
+  // an Arduino String is read with its length (a bounded input), but the test double can only be
+  // built from a C string: binary input goes through it when it contains no NUL byte
+  if (kind == 10 && fmt == MSGPACK && bytes.find('\0') != std::string::npos) { out.code = "skip"; return out; }
 #endif
   if (fmt == MSGPACK && zeroTerminated) { out.code = "skip"; return out; }
   switch (kind) {
@@ -297,6 +300,114 @@ static Outcome runKind(Fmt fmt, int kind, const std::string& bytes, bool useFilt
   return out;
 }
 
+// ---------------------------------------------------------------------------------------------
+// C05 for the deserializers: the case is run fault-free to count its N failable allocator calls,
+// then with a failure at call k and with failures from call k on, for every k.  One ndjson event
+// per faulted run, judged by spec/FaultTrace.tla (event "rfault").
+static DeserializationError runPlain(Fmt fmt, int kind, JsonDocument& doc, const std::string& bytes, bool useFilter,
+                                     JsonDocument& filter, int lim) {
+  if (kind == 3) {
+    std::istringstream is(bytes);
+    return call(fmt, doc, is, useFilter, filter, lim);
+  }
+  if (kind == 4) {
+    CountingReader r(bytes, 3);
+    return call(fmt, doc, r, useFilter, filter, lim);
+  }
+  std::unique_ptr<char[]> buf(new char[bytes.size() ? bytes.size() : 1]);
+  memcpy(buf.get(), bytes.data(), bytes.size());
+  const char* p = buf.get();
+  return callSized(fmt, doc, p, bytes.size(), useFilter, filter, lim);
+}
+
+static void prefill(JsonDocument& doc, unsigned prestate) {
+  if (prestate == 1) doc["old"][2] = std::string("previous content");
+  else if (prestate == 2) { doc.add(1099511627776LL); doc.add(std::string("x")); }
+}
+
+static void faultCase(Fmt fmt, const mj::Value& c, const std::string& bytes, long idx, std::ofstream& out, long maxk,
+                      long& events, long& fired) {
+  const mj::Value& f = c.at("f");
+  const mj::Value& o = c.at("o");
+  bool useFilter = f.str("t") != "T";
+  int lim = (int)c.num("lim");
+  const std::string& expCode = c.str("code");
+  bool weird = c.has("weird") && c.boolean("weird");
+  JsonDocument filter;
+  if (useFilter) bv::buildFilter(f, filter.to<JsonVariant>());
+  static const int kinds[] = {1, 3, 4};
+  int kind = kinds[idx % 3];
+  unsigned pre = (unsigned)((idx / 3) % 3);
+  g_kind = KINDS[kind];
+  long N = 0;
+  {
+    VerifAllocator alloc(1);
+    JsonDocument doc(&alloc);
+    prefill(doc, pre);
+    VerifAllocator::resetGlobalCount();
+    runPlain(fmt, kind, doc, bytes, useFilter, filter, lim);
+    N = VerifAllocator::global().failable;
+  }
+  for (int mode = 0; mode < 2; mode++) {
+    for (long k = 1; k <= N && k <= maxk; k++) {
+      if (mode == 1 && k == N) continue;
+      VerifAllocator alloc(1);
+      mj::Value ev = mj::Value::mkObj();
+      ev.set("e", mj::Value::mkStr("rfault"));
+      ev.set("fmt", mj::Value::mkStr(fmt == JSON ? "json" : "msgpack"));
+      ev.set("idx", mj::Value::mkInt(idx));
+      ev.set("kind", mj::Value::mkStr(KINDS[kind]));
+      ev.set("mode", mj::Value::mkStr(mode == 0 ? "single" : "from"));
+      ev.set("k", mj::Value::mkInt(k));
+      ev.set("n", mj::Value::mkInt(N));
+      ev.set("expcode", mj::Value::mkStr(expCode));
+      ev.set("inp", c.at("inp"));
+      ev.set("lim", mj::Value::mkInt(lim));
+      ev.set("f", f);
+      {
+        JsonDocument doc(&alloc);
+        prefill(doc, pre);
+        if (mode == 0) VerifAllocator::armSingle(k); else VerifAllocator::armFrom(k);
+        DeserializationError err = runPlain(fmt, kind, doc, bytes, useFilter, filter, lim);
+        long nf = VerifAllocator::global().fired;
+        VerifAllocator::disarm();
+        std::string code = errName(err);
+        ev.set("fired", mj::Value::mkBool(nf > 0));
+        ev.set("code", mj::Value::mkStr(code));
+        ev.set("ovf", mj::Value::mkBool(doc.overflowed()));
+        std::string diff;
+        if (code == "Ok" && expCode == "Ok")
+          diff = bv::compare(doc.as<JsonVariantConst>(), c.at("v"), o.boolean("nan"), o.boolean("inf"), weird);
+        ev.set("equal", mj::Value::mkBool(diff.empty()));
+        // the document is a well-formed value that can be traversed and serialized
+        mj::Value pr = mj::Value::mkArr();
+        auto snap = ArduinoJsonVerifInspector::snapshot(doc);
+        for (auto& p : snap.problems) pr.a.push_back(mj::Value::mkStr(p));
+        for (auto& st : snap.strings)
+          if (st.refs == 0) pr.a.push_back(mj::Value::mkStr("string node with zero references"));
+        std::string s1, s2;
+        size_t n1 = serializeJson(doc, s1), n2 = serializeMsgPack(doc, s2);
+        if (n1 != s1.size() || n1 != measureJson(doc) || n2 != s2.size() || n2 != measureMsgPack(doc))
+          pr.a.push_back(mj::Value::mkStr("serialize/measure disagree"));
+        ev.set("insp", pr);
+        doc.clear();
+        ev.set("live", mj::Value::mkInt((long long)alloc.liveBlocks()));
+        bool works = doc.isNull() && !doc.overflowed();
+        doc["k"][1] = std::string("v");
+        doc["n"] = 1099511627776LL;
+        std::string again;
+        serializeJson(doc, again);
+        works = works && again == "{\"k\":[null,\"v\"],\"n\":1099511627776}" && !doc.overflowed();
+        ev.set("works", mj::Value::mkBool(works));
+        if (nf > 0) fired++;
+      }
+      ev.set("ledger", mj::Value::mkBool(alloc.liveBlocks() == 0 && alloc.errors().empty()));
+      out << mj::dump(ev) << "\n";
+      events++;
+    }
+  }
+}
+
 int main(int argc, char** argv) {
   if (argc < 3) { fprintf(stderr, "usage: reader_replay cases seed\n"); return 2; }
   signal(SIGSEGV, onSignal);
@@ -304,6 +415,11 @@ int main(int argc, char** argv) {
   signal(SIGALRM, onSignal);
   std::ifstream in(argv[1]);
   unsigned long long seed = strtoull(argv[2], nullptr, 10);
+  bool faults = argc > 4 && std::string(argv[3]) == "--faults";
+  std::ofstream faultOut;
+  if (faults) faultOut.open(argv[4]);
+  long maxk = argc > 5 ? atol(argv[5]) : 60;
+  long fevents = 0, ffired = 0;
   std::string line;
   long idx = 0, ran = 0, skipped = 0, bad = 0, evals = 0;
   long maxStack[4] = {0, 0, 0, 0};
@@ -322,26 +438,33 @@ int main(int argc, char** argv) {
     std::string bytes;
     for (auto& x : c.at("inp").a) bytes += char((unsigned char)x.i);
     int lim = (int)c.num("lim");
+    if (faults) {
+      if (!c.has("session")) { faultCase(fmt, c, bytes, idx, faultOut, maxk, fevents, ffired); ran++; }
+      idx++;
+      continue;
+    }
     if (c.has("session")) {
       // C16: successive calls on one stream return the documents one after the other
       std::string problem;
       const auto& calls = c.at("session").a;
+      bool sFilter = c.has("f") && c.at("f").str("t") != "T";
+      JsonDocument nofilter;
+      if (sFilter) bv::buildFilter(c.at("f"), nofilter.to<JsonVariant>());
       for (int kind = 0; kind < 3 && problem.empty(); kind++) {
         std::istringstream is(bytes);
         CountingReader r1(bytes, 1), r7(bytes, 7);
         long before = 0;
         for (size_t k = 0; k < calls.size() && problem.empty(); k++) {
           JsonDocument doc;
-          JsonDocument nofilter;
           DeserializationError e;
           long now;
           if (kind == 0) {
-            e = call(fmt, doc, is, false, nofilter, lim);
+            e = call(fmt, doc, is, sFilter, nofilter, lim);
             bool atEnd = is.eof();
             is.clear();
             now = atEnd ? (long)bytes.size() : (long)is.tellg();
-          } else if (kind == 1) { e = call(fmt, doc, r1, false, nofilter, lim); now = (long)r1.pos; }
-          else { e = call(fmt, doc, r7, false, nofilter, lim); now = (long)r7.pos; }
+          } else if (kind == 1) { e = call(fmt, doc, r1, sFilter, nofilter, lim); now = (long)r1.pos; }
+          else { e = call(fmt, doc, r7, sFilter, nofilter, lim); now = (long)r7.pos; }
           evals++;
           std::string where = " [session call " + std::to_string(k) + " kind=" + (kind == 0 ? "istream" : kind == 1 ? "reader1" : "reader7") + "]";
           if (calls[k].str("code") != errName(e)) problem = "code expected=" + calls[k].str("code") + " got=" + errName(e) + where;
@@ -411,6 +534,7 @@ int main(int argc, char** argv) {
     idx++;
   }
   (void)seed;
+  if (faults) { printf("SUMMARY cases=%ld events=%ld fired=%ld\n", ran, fevents, ffired); return 0; }
   printf("SUMMARY lines=%ld ok=%ld mismatches=%ld skipped=%ld evals=%ld stack0=%ld stack1=%ld stack2=%ld\n", idx, ran, bad,
          skipped, evals, maxStack[0], maxStack[1], maxStack[2]);
   return bad ? 1 : 0;
